@@ -16,6 +16,7 @@ import (
 	"time"
 
 	"github.com/form3tech-oss/f1/v2/internal/trigger/file"
+	"github.com/form3tech-oss/f1/v2/internal/trigger/ramp"
 	"github.com/form3tech-oss/f1/v2/internal/trigger/rate"
 	"github.com/form3tech-oss/f1/v2/internal/trigger/staged"
 	"github.com/form3tech-oss/f1/v2/internal/verifharness/hlib"
@@ -660,7 +661,9 @@ func peakRateSuite() hlib.Suite {
 		// boundary values of the bell's parameters: rejected, or a rate function whose values are numbers
 		// (a NaN or an infinity converted to an integer shows as the extreme int64 values)
 		for _, sd := range []string{"0s", "1ns", "1ms"} {
-			for _, extra := range [][]string{nil, {"peak-rate", "5/s"}, {"volume", "0"}, {"repeat", "1s", "iteration-frequency", "1s"}} {
+			for _, extra := range [][]string{nil, {"peak-rate", "5/s"}, {"volume", "0"}, {"repeat", "1s", "iteration-frequency", "1s"},
+				// ticks further apart than the window repeats
+				{"repeat", "1s", "iteration-frequency", "2s"}, {"repeat", "10s", "iteration-frequency", "30s", "standard-deviation", "5s"}, {"repeat", "1m", "iteration-frequency", "1m1s", "standard-deviation", "10s"}} {
 				r.Eval()
 				flags := map[string]string{"standard-deviation": sd, "distribution": "none", "jitter": "0"}
 				for i := 0; i+1 < len(extra); i += 2 {
@@ -683,8 +686,45 @@ func peakRateSuite() hlib.Suite {
 						r.Fail("C14/unusable-rate-function", "not-a-number/sd="+sd, fmt.Sprintf("accepted, but the rate function returns %d: a NaN or an infinity converted to an integer", got), input)
 						break
 					}
+					if got < 0 {
+						r.Fail("C14/unusable-rate-function", "negative-bell", fmt.Sprintf("accepted, but the bell curve's rate function returns %d", got), input)
+						break
+					}
 				}
 				r.Distinct("accepted sd=" + sd)
+			}
+		}
+		// a ramp between two rate strings: rejected, or the load the two strings spell (the mean of the two
+		// rates over the ramp's duration), whatever units they are spelled in
+		for _, start := range []string{"0", "0/s", "0/m", "0/10s", "1/s", "60/m", "6/10s"} {
+			for _, end := range []string{"10/m", "10/s", "6/10s", "0", "0/m", "120/m"} {
+				r.Eval()
+				input := fmt.Sprintf("f1 run ramp --start-rate %s --end-rate %s --ramp-duration 10m", start, end)
+				r.SampleCase(input)
+				_, okS, nS, uS := refRate(start)
+				_, okE, nE, uE := refRate(end)
+				rates, err := ramp.CalculateRampRate(start, end, "none", 10*time.Minute, 0)
+				if err != nil || !okS || !okE {
+					r.Distinct("ramp rejected")
+					continue
+				}
+				t0 := time.Date(2024, 1, 1, 0, 0, 0, 0, time.UTC)
+				sum := 0
+				if p, pv := hlib.Catch(func() {
+					for at := time.Duration(0); at < 10*time.Minute; at += rates.IterationDuration {
+						sum += rates.Rate(t0.Add(at))
+					}
+				}); p || rates.IterationDuration <= 0 {
+					r.Fail("C14/ramp-unusable", "panic-or-interval", fmt.Sprint(pv, rates.IterationDuration), input)
+					continue
+				}
+				want := (float64(nS)/uS.Seconds() + float64(nE)/uE.Seconds()) / 2 * 600
+				// each tick's value is the interpolated rate cut to an integer (towards the start rate): up to one per tick either way
+				ticks := float64(10 * time.Minute / rates.IterationDuration)
+				if d := float64(sum) - want; d > 0.1*want+10+ticks || d < -0.1*want-10-ticks {
+					r.Fail("C14/ramp-meaning", "units", fmt.Sprintf("accepted; the ticks of the 10-minute ramp request %d in all, the two strings spell about %.0f", sum, want), input)
+				}
+				r.Distinct("ramp accepted")
 			}
 		}
 		r.Sample(map[string]any{"counts": counts, "units": units})
